@@ -1870,3 +1870,57 @@ def feasible(conds):
                 if not any(a.name.rsplit('::', 1)[-1] in c.variants for a in alts):
                     return False
     return True
+
+
+# ---------------------------------------------------------------------------
+# iteration identity: which loop / adaptor an element expression belongs to
+
+FOLDS = ('fold', 'try_fold', 'rfold', 'reduce', 'fold_while')
+
+
+def elem_key(F, root, b, e, depth=0):
+    """which iteration an element / index expression of body `b` belongs to: (key, chain, role)
+       key   - identity of the iteration (a `next` call of a loop, or the parameter of the closure an adaptor runs)
+       chain - the iterated expression, written in terms of the root function's parameters where possible
+       role  - 'elem' | 'acc' (the accumulator parameter of a fold closure; chain is then the initial value)"""
+    if depth > 4:
+        return None, None, None
+    for y in e.walk():
+        if y.kind == 'call' and y.name.rsplit('::', 1)[-1] == 'next' and y.args:
+            return repr(E('call', name=y.name, args=y.args)), subst_upvars(F, b, y.args[0]), 'elem'
+    for y in e.walk():
+        # `boxes[k]`: the element belongs to the iteration that produces k (the index is kept as text on the place)
+        if y.kind == 'place':
+            for f in y.fields:
+                f = str(f)
+                if f.startswith('[next('):
+                    depth_, end = 0, None
+                    for i_, ch in enumerate(f[1:]):
+                        if ch == '(':
+                            depth_ += 1
+                        elif ch == ')':
+                            depth_ -= 1
+                            if depth_ == 0:
+                                end = i_ + 2
+                                break
+                    if end:
+                        return f[1:end], None, 'elem'
+    for y in e.walk():
+        if y.kind == 'place' and y.root[0] == 'param' and b.kind == 'Closure' and y.root[1] >= 2:
+            pb, c = adaptor_of_closure(F, root, b)
+            if pb is None:
+                return 'param%d@%s' % (y.root[1], b.npath), None, 'elem'
+            ebp = ExprBuilder(pb)
+            if c.name in FOLDS and y.root[1] == 2 and len(c.args) >= 3:
+                return 'acc@%s' % b.npath, ebp.arg(c, 1), 'acc'
+            return 'param%d@%s' % (y.root[1], b.npath), subst_upvars(F, pb, ebp.arg(c, 0)), 'elem'
+        if y.kind == 'place' and y.root[0] == 'param' and b.kind != 'Closure':
+            return 'param%d@%s' % (y.root[1], b.npath), y, 'elem'
+    for y in e.walk():
+        if y.kind == 'place' and y.root[0] == 'upvar' and b.kind == 'Closure':
+            pb, pe = upvar_expr(F, b, y.root[1])
+            if pb is not None and pe is not None:
+                return elem_key(F, root, pb, pe, depth + 1)
+    return None, None, None
+
+
